@@ -20,13 +20,25 @@ const PAYLOADS: &[&str] = &["()", "String", "crate::Tok", "std::vec::Vec<u8>", "
 fn valid_grammar(rng: &mut Rng, collide: usize) -> Grammar {
     let cfg = gen::accepted_family(rng);
     let payload = *rng.pick(PAYLOADS);
-    gen::decorate(&cfg, rng, DecoOpts { collide_pct: collide, unreachable: true, payload })
+    gen::decorate(&cfg, rng, DecoOpts { collide_pct: collide, unreachable: true, payload, shuffle: true })
 }
 
 fn violation_extra(g: &Grammar, k: usize, rng: &mut Rng) -> String {
     let some_nt = g.nts[rng.below(g.nts.len())].name.clone();
     let some_t = if g.terms.is_empty() { "Nope".to_string() } else { g.terms[rng.below(g.terms.len())].name.clone() };
-    match rng.below(16) {
+    let other_t = if g.terms.is_empty() { "Nope".to_string() } else { g.terms[rng.below(g.terms.len())].name.clone() };
+    match rng.below(21) {
+        // several violations of the SAME kind inside ONE scope: "which of them is reported" is
+        // where an order dependence hides
+        16 => format!("enum Dups{k} {{\n    Lit\n    Neg\n    Lit\n    Neg\n    Add\n    Add\n}}"),
+        17 => format!(
+            "enum Seqs{k} {{\n    A(${some_t})\n    B(${other_t} ${some_t})\n    C(_: ${some_t})\n    D(${other_t} _: ${some_t})\n    E\n    F\n}}"
+        ),
+        18 => format!(
+            "struct Unds{k} {{\n    a: MissingA{k}\n    b: MissingB{k}\n    c: $AbsentA{k}\n    d: $AbsentB{k}\n}}"
+        ),
+        19 => format!("enum Lows{k} {{\n    first\n    second\n    Third {{ Upper: {some_nt} Other: {some_nt} }}\n}}"),
+        20 => format!("struct {some_nt}\n\nstruct {some_nt}\n\nenum {some_t} {{ A }}\n\nstruct {}", g.token_enum),
         14 => format!("struct Cross{k} {{\n    a: {some_t}\n}}"),
         15 => format!("struct Crosst{k}(\n    ${some_nt}\n)"),
         0 => format!("struct {some_nt}"),
@@ -145,13 +157,13 @@ pub fn ambient_text(rng: &mut Rng) -> TextItem {
         }
         1 => {
             let cfg = gen::fam_wide(rng);
-            let g = gen::decorate(&cfg, rng, DecoOpts { collide_pct: 20, unreachable: true, payload: "String" });
+            let g = gen::decorate(&cfg, rng, DecoOpts { collide_pct: 20, unreachable: true, payload: "String", shuffle: true });
             let mut lay = rng.clone();
             TextItem { text: render(&g, &mut lay), category: "wide", planted: 0 }
         }
         2 => {
             let cfg = gen::fam_conflict(rng);
-            let g = gen::decorate(&cfg, rng, DecoOpts { collide_pct: 10, unreachable: false, payload: "()" });
+            let g = gen::decorate(&cfg, rng, DecoOpts { collide_pct: 10, unreachable: false, payload: "()", shuffle: true });
             let mut lay = rng.clone();
             TextItem { text: render(&g, &mut lay), category: "conflict", planted: 0 }
         }
@@ -160,7 +172,7 @@ pub fn ambient_text(rng: &mut Rng) -> TextItem {
         _ => {
             // conflicting grammar with static violations on top
             let cfg = gen::fam_conflict(rng);
-            let g = gen::decorate(&cfg, rng, DecoOpts { collide_pct: 10, unreachable: false, payload: "()" });
+            let g = gen::decorate(&cfg, rng, DecoOpts { collide_pct: 10, unreachable: false, payload: "()", shuffle: true });
             let mut opts = RenderOpts { fancy: true, ..Default::default() };
             let n = rng.range(1, 3);
             for k in 0..n {
